@@ -2956,6 +2956,18 @@ impl Block {
             }
 
             //
+            // the id is the height: one more than the parent's. it is what the block is
+            // filed under in the blockring and what drives pruning
+            //
+            if previous_block.id.checked_add(1) != Some(self.id) {
+                error!(
+                    "ERROR 293011: block id {} does not follow the id of its parent {}",
+                    self.id, previous_block.id
+                );
+                return false;
+            }
+
+            //
             // treasury
             //
             let mut expected_treasury = previous_block.treasury;
